@@ -37,15 +37,20 @@ def abstract(r, keys, offset_first):
     if not any(n["c"] == keys - 1 for n in notes):
         q = next(x for x in range(32) if (keys - 1, x) not in cells)
         notes.append({"c": keys - 1, "q": q, "ln": 0})
-    two_tempo = r.random() < 0.5
-    return {"keys": keys, "bl": bl, "t0": t0, "notes": sorted(notes, key=lambda n: n["q"]), "two_tempo": two_tempo}
+    # tempo plan: (quarter beat, beat length in ticks); the third point returns to the first value
+    plan = [(0, 50000), (16, 25000), (24, 50000)][: r.choice([1, 1, 2, 3])]
+    return {"keys": keys, "bl": bl, "t0": t0, "notes": sorted(notes, key=lambda n: n["q"]), "plan": plan}
 
 
 def _time(a, q):
-    """ms of quarter-beat q: 500 ms beats, from measure 4 (q=16) on 250 ms beats when two_tempo"""
-    if a["two_tempo"] and q >= 16:
-        return a["t0"] + 16 * 125.0 + (q - 16) * 62.5
-    return a["t0"] + q * 125.0
+    """ms of quarter-beat q through the tempo plan"""
+    t, plan = a["t0"], a["plan"]
+    for k, (q0, bl) in enumerate(plan):
+        q1 = plan[k + 1][0] if k + 1 < len(plan) else None
+        if q1 is None or q < q1:
+            return t + (q - q0) * bl / 400.0
+        t += (q1 - q0) * bl / 400.0
+    return t
 
 
 def source(game, a, r):
@@ -60,8 +65,8 @@ def source(game, a, r):
                          "end": int(round(_time(a, n["q"] + n["ln"]) * 1000)) if hold else 0, "ss": 0, "as": 0, "ci": 0, "vol": 0,
                          "file": "", "arity": 6 if hold else 5})
         tps = [{"t": int(a["t0"] * 1000), "code": 50000, "meter": r.choice([4, 3, 7]), "ss": 0, "si": 0, "vol": 100, "uninh": 1, "fx": 0, "arity": 8}]
-        if a["two_tempo"]:
-            tps.append({"t": int(_time(a, 16) * 1000), "code": 25000, "meter": 4, "ss": 0, "si": 0, "vol": 100, "uninh": 1, "fx": 0, "arity": 8})
+        for q0, bl in a["plan"][1:]:
+            tps.append({"t": int(_time(a, q0) * 1000), "code": bl, "meter": 4, "ss": 0, "si": 0, "vol": 100, "uninh": 1, "fx": 0, "arity": 8})
         from harness.drivers.c01 import meta_lines
         lines = osu_text.concretize({"objs": objs, "tps": tps, "samples": [], "bg": "bg.png"}, meta_lines(K, r, 1))
         return lines, osu_text.lex(lines), ""
@@ -71,8 +76,8 @@ def source(game, a, r):
         objs = [{"st": I(_time(a, n["q"])), "lane": I(n["c"] + 1), "end": I(_time(a, n["q"] + n["ln"])) if n["ln"] else A,
                  "ks": {"tag": "list", "num": 0}} for n in a["notes"]]
         tps = [{"st": I(a["t0"]), "bpm": {"tag": "float", "num": 12000}}]
-        if a["two_tempo"]:
-            tps.append({"st": I(_time(a, 16)), "bpm": {"tag": "float", "num": 24000}})
+        for q0, bl in a["plan"][1:]:
+            tps.append({"st": I(_time(a, q0)), "bpm": {"tag": "float", "num": 6000000 * 100 // bl}})
         text = qua_text.concretize({"objs": objs, "tps": tps, "svs": []},
                                    {"Title": "T", "Artist": "A", "Creator": "C", "DifficultyName": "D", "Mode": f"Keys{K}"})
         return text, qua_text.tokens(text), ""
@@ -81,7 +86,7 @@ def source(game, a, r):
         for n in a["notes"]:
             objs.append({"k": "2" if n["ln"] else "1", "c": n["c"], "i": n["q"], "j": n["q"] + n["ln"]})
         scn = {"type": SM_TYPE[K], "rows": [16, 16], "objs": objs, "off": int(a["t0"] * 100),
-               "bpms": [{"p48": 0, "bl": 50000}] + ([{"p48": 4 * 48, "bl": 25000}] if a["two_tempo"] else [])}
+               "bpms": [{"p48": q0 * 12, "bl": bl} for q0, bl in a["plan"]]}
         # a second, different chart of the same type in the set
         k2 = K
         grid2 = [["0"] * k2 for _ in range(8)]
@@ -96,8 +101,8 @@ def source(game, a, r):
             if n["ln"]:
                 m2, i2 = divmod(n["q"] + n["ln"], 16)
                 lines.append({"m": m2, "ch": BME_CH[n["c"]], "d": 16, "objs": [{"i": i2, "id": "ZZ", "val": 0}]})
-        if a["two_tempo"]:
-            lines.append({"m": 1, "ch": "08", "d": 1, "objs": [{"i": 0, "id": "T", "val": 25000}]})
+        for q0, bl in a["plan"][1:]:
+            lines.append({"m": q0 // 16, "ch": "08", "d": 2, "objs": [{"i": (q0 % 16) // 8, "id": "T", "val": bl}]})
         f = {"bpm0": 50000, "lnobj": "ZZ", "wavs": [{"id": "01", "file": "a.wav"}], "lines": lines}
         txt = bms_text.concretize(f, r, merge=True, shuffle=False)
         return txt, bms_text.lex(txt), "BME"
@@ -109,8 +114,11 @@ def source(game, a, r):
             if n["ln"]:
                 m2, i2 = divmod(n["q"] + n["ln"], 16)
                 lvl.append({"m": m2, "ch": n["c"] + 2, "n": 16, "evs": [{"i": i2, "kind": 3, "vol": 3, "pan": 8, "bl": 0}]})
-        if a["two_tempo"]:
-            lvl.append({"m": 1, "ch": 1, "n": 1, "evs": [{"i": 0, "kind": 0, "vol": 0, "pan": 0, "bl": 25000}]})
+        tev = {}
+        for q0, bl in a["plan"][1:]:
+            tev.setdefault(q0 // 16, []).append({"i": (q0 % 16) // 8, "kind": 0, "vol": 0, "pan": 0, "bl": bl})
+        for m, evs in tev.items():
+            lvl.append({"m": m, "ch": 1, "n": 2, "evs": evs})
         lvl.sort(key=lambda p: (p["m"], p["ch"]))
         data = ojn_bytes.encode([lvl, lvl, lvl], 50000)
         return data, ojn_bytes.decode(data), ""
@@ -170,6 +178,11 @@ def exec_pair(scn):
             outs = [res]
         else:
             outs = list(res)
+        if scn.get("twice"):
+            # writing is not supposed to change the chart: the second file is the one judged
+            for o in outs:
+                write_target(tg, o)
+            rec["twice"] = True
         toks = [write_target(tg, o) for o in outs]
         if tg == "sm":
             # a written set holds every chart: one token file per chart for the comparison
